@@ -46,3 +46,4 @@ def run(ctx):
     else:
         ctx.fail("trace-rejected:Trace_XlsxStrings", {"kind": "trace", "trace": trace, "info": v["info"],
                                                       "tlc_output": v["out"]})
+    ctx.families_leg("text")
